@@ -1393,3 +1393,166 @@ func (c *Ctx) checkThroughFuncValue(s *sink) string {
 	})
 	return why
 }
+
+// ruleWidthDecode (T8): ByteOrder.UintNN(b) panics when b is shorter than the
+// field. A slice whose length the input decides needs a dominating check of
+// that length (or a constant length) before a fixed-width field is decoded
+// from it.
+func (c *Ctx) ruleWidthDecode(rule string, in func(*ssa.Function) bool) int {
+	n := 0
+	counts := map[string]int{}
+	for _, fn := range c.P.LibFunctions() {
+		if in != nil && !in(fn) {
+			continue
+		}
+		fn := fn
+		instrsOf(fn, func(i ssa.Instruction) {
+			call, ok := i.(*ssa.Call)
+			if !ok {
+				return
+			}
+			id := ir.CallID(call)
+			if !strings.HasPrefix(id, "encoding/binary.") {
+				return
+			}
+			w := int64(0)
+			switch id[strings.LastIndex(id, ".")+1:] {
+			case "Uint16":
+				w = 2
+			case "Uint32":
+				w = 4
+			case "Uint64":
+				w = 8
+			default:
+				return
+			}
+			args := ir.CallArgs(call)
+			b := ir.StripConv(args[len(args)-1])
+			// peel reslices with constant bounds: need len(root) >= need
+			need := w
+			root := b
+			for {
+				sl, isSl := root.(*ssa.Slice)
+				if !isSl {
+					break
+				}
+				lo := int64(0)
+				if sl.Low != nil {
+					k, isK := ir.ConstInt(sl.Low)
+					if !isK {
+						return // computed offsets: judged by the slice-bound rule (T3)
+					}
+					lo = k
+				}
+				if sl.High != nil {
+					hk, isK := ir.ConstInt(sl.High)
+					if !isK {
+						return
+					}
+					if hk-lo >= need {
+						// the reslice itself panics first if the root is too short: length needed is hk
+						need = hk
+					} else {
+						need = -1 // constant window narrower than the field: always panics; leave to vet
+					}
+					if pt, isP := sl.X.Type().Underlying().(*types.Pointer); isP {
+						if arr, isArr := pt.Elem().Underlying().(*types.Array); isArr && arr.Len() >= hk {
+							return
+						}
+					}
+				} else {
+					if pt, isP := sl.X.Type().Underlying().(*types.Pointer); isP {
+						if arr, isArr := pt.Elem().Underlying().(*types.Array); isArr {
+							if arr.Len()-lo >= need {
+								return
+							}
+						}
+					}
+					need += lo
+				}
+				root = ir.StripConv(sl.X)
+			}
+			if need < 0 {
+				return
+			}
+			if ms, isMS := root.(*ssa.MakeSlice); isMS {
+				if k, isK := ir.ConstInt(ms.Len); isK && k >= need {
+					return
+				}
+			}
+			// a slice literal
+			if a, isA := root.(*ssa.Alloc); isA {
+				if arr, isArr := a.Type().Underlying().(*types.Pointer).Elem().Underlying().(*types.Array); isArr && arr.Len() >= need {
+					return
+				}
+			}
+			n++
+			key := ordinalKey(counts, name(fn)+":width")
+			construct := strings.TrimPrefix(key, name(fn)+":")
+			// dominating knowledge about the length
+			lb := int64(0)
+			rootPath := ir.AccessPath(root)
+			var lenVal ssa.Value
+			if ms, isMS := root.(*ssa.MakeSlice); isMS {
+				lenVal = ir.StripConv(ms.Len)
+			}
+			for _, ce := range ir.DominatingConds(fn, call.Block()) {
+				bo, isB := ce.Cond.(*ssa.BinOp)
+				if !isB {
+					continue
+				}
+				isLen := func(v ssa.Value) bool {
+					v = ir.StripConv(v)
+					if lc, ok := v.(*ssa.Call); ok && ir.CallID(lc) == "builtin.len" {
+						return ir.AccessPath(ir.StripConv(lc.Call.Args[0])) == rootPath && rootPath != ""
+					}
+					return lenVal != nil && v == lenVal
+				}
+				op := bo.Op
+				var k int64
+				switch {
+				case isLen(bo.X):
+					kk, isK := ir.ConstInt(ir.StripConv(bo.Y))
+					if !isK {
+						continue
+					}
+					k = kk
+				case isLen(bo.Y):
+					kk, isK := ir.ConstInt(ir.StripConv(bo.X))
+					if !isK {
+						continue
+					}
+					k = kk
+					switch op {
+					case token.LSS:
+						op = token.GTR
+					case token.LEQ:
+						op = token.GEQ
+					case token.GTR:
+						op = token.LSS
+					case token.GEQ:
+						op = token.LEQ
+					}
+				default:
+					continue
+				}
+				if !ce.Truth {
+					op = negate(op)
+				}
+				switch op {
+				case token.GEQ, token.EQL:
+					if k > lb {
+						lb = k
+					}
+				case token.GTR:
+					if k+1 > lb {
+						lb = k + 1
+					}
+				}
+			}
+			c.R.Check(lb >= need, rule, name(fn), construct, c.IPos(call), "a fixed-width field is decoded only from a slice known to be long enough",
+				fmt.Sprintf("%s reads %d bytes of %s; nothing on the way establishes len >= %d (known: >= %d): a shorter value panics with index out of range", id[strings.LastIndex(id, ".")+1:], w, rootPath, need, lb))
+		})
+	}
+	return n
+}
